@@ -608,9 +608,10 @@ func (conn *Tunnel) serve() {
 	util.Log(conn, "Started worker")
 	defer util.Log(conn, "Worker exited")
 
+	// Close waits for this; it must not return before the channels are closed.
+	defer conn.wait.Done()
 	defer close(conn.ack)
 	defer close(conn.inbound)
-	defer conn.wait.Done()
 
 	for {
 		err := conn.process()
